@@ -154,11 +154,20 @@ pub fn uses_cram_3_1_codecs(block_content_encoder_map: &BlockContentEncoderMap) 
     fn is_cram_3_1_codec(encoder: &Encoder) -> bool {
         matches!(
             encoder,
-            Encoder::RansNx16(_) | Encoder::AdaptiveArithmeticCoding(_) | Encoder::NameTokenizer
+            Encoder::RansNx16(_)
+                | Encoder::AdaptiveArithmeticCoding(_)
+                | Encoder::NameTokenizer
+                | Encoder::Fqzcomp
         )
     }
 
     if let Some(encoder) = block_content_encoder_map.core_data_encoder()
+        && is_cram_3_1_codec(encoder)
+    {
+        return true;
+    }
+
+    if let Some(encoder) = block_content_encoder_map.default_encoder()
         && is_cram_3_1_codec(encoder)
     {
         return true;
